@@ -9,6 +9,7 @@ from pvc.units import (unit, mk_obj, term_of, run, callback, calls_of, LoopSpec,
 from pvc.values import ListTerm
 from pvc.sym import Log, log_nil, log_snoc, log_cat, ret_of
 from pvc.fold import Fold
+from pvc.core import PathEnd
 from pvc import models as M
 
 O = "ptera.overlay"
@@ -24,6 +25,25 @@ p_tmpl = z3.Function("p_template", z3.IntSort(), z3.BoolSort())
 p_fits = z3.Function("p_fits", z3.IntSort(), z3.BoolSort())
 p_cached = z3.Function("p_cached", z3.IntSort(), z3.BoolSort())
 p_nkids = z3.Function("p_nkids", z3.IntSort(), z3.IntSort())
+p_isimm = z3.Function("p_accumulator_is_immediate", z3.IntSort(), z3.BoolSort())
+
+
+# what a function object says about where it was defined: NOT an identity (closures of one factory, methods of factory-made classes
+# and functions exec'd again at module level share all of it)
+_FN_NAMES = {"__module__": "usermod", "__qualname__": "make.<locals>.W.run", "__name__": "run"}
+
+
+def _acc_isinstance(is_imm):
+    """The pending accumulator is an Immediate or a Total one (any of the two, decided when the code asks): the contract of proceed
+    does not depend on which -- every call of a focused function gets a fork of its own, whatever the accumulator records."""
+    def f(it_, v, cls):
+        nm = getattr(cls, "name", None)
+        if nm == "Immediate":
+            return is_imm(it_)
+        if nm == "Total":
+            return not is_imm(it_)
+        return nm == "BaseAccumulator" or cls is object
+    return f
 children_t = z3.Function("children_t", Val, Log)
 ev_fork = z3.Function("ev_fork", Val, Val)
 ev_register = z3.Function("ev_register", Val, Val, Val, Val)
@@ -78,7 +98,8 @@ def _mk_pair_sym(it, i):
 
     fk = SummaryFn("fork", fork)
     fk.is_method = True
-    acc = SymObj("acc", Val.ref(p_acc(i)), attrs={"template": SBool(p_tmpl(i)), "fork": fk})
+    acc = SymObj("acc", Val.ref(p_acc(i)), attrs={"template": SBool(p_tmpl(i)), "fork": fk,
+                                                   "__isinstance__": _acc_isinstance(lambda it_: it_.ctx.decide(p_isimm(i)))})
     return (sel, acc)
 
 
@@ -104,9 +125,21 @@ def _install_common(it, cache_checks):
     it.policies[I + ":Interactor.register"] = reg_summary
 
     # the memo table, through its consistency invariant: it only ever holds fits_selector(fn, selector)
+    def _key_parts(it_, key):
+        # the memo answers for THIS function object and THIS selector object: fits_selector decides by the identity of the function, so
+        # a key that two functions can share (a name, a qualified name, a code location) hands one function's answer to the other
+        parts = list(key) if isinstance(key, (tuple, list)) else [key]
+        sels = [x for x in parts if isinstance(x, SymObj) and "_index" in x.attrs]
+        fns = [x for x in parts if isinstance(x, SymObj) and x.name == "fn"]
+        it_.ctx.prove("aux/memo-keyed-by-the-function-object-and-the-selector", len(sels) == 1 and len(fns) == 1 and len(parts) == 2,
+                      note=f"key {parts!r}")
+        if len(sels) != 1:
+            raise PathEnd()
+        return sels[0]
+
     def cache_get(it_, a, k):
         key = a[0]
-        sel = key[1]
+        sel = _key_parts(it_, key)
         i = sel.attrs["_index"]
         if it_.ctx.decide(p_cached(i)):
             if it_.ctx.decide(p_fits(i)):
@@ -116,7 +149,7 @@ def _install_common(it, cache_checks):
 
     def cache_set(it_, a, k):
         key, v = a
-        sel = key[1]
+        sel = _key_parts(it_, key)
         i = sel.attrs["_index"]
         cache_checks.append((i, v))
         return None
@@ -126,7 +159,7 @@ def _install_common(it, cache_checks):
     it.module_env(O).vars["_selector_fit_cache"] = cache
 
 
-@unit("proceed", ["C03", "C07", "C04", "C09"], [PROCEED, O + ":HandlerCollection.__init__", I + ":Interactor.__init__"], replay=_replay_file("c03_proceed.py"),
+@unit("proceed", ["C03", "C07", "C04", "C09", "C02", "C12", "C06", "C13", "C05"], [PROCEED, O + ":HandlerCollection.__init__", I + ":Interactor.__init__"], replay=_replay_file("c03_proceed.py"),
       assumed=["fits_selector is used through its contract (deterministic function of (fn, selector): False or a capture map)",
                "Interactor.register is used through its contract (one ghost event per call)",
                "accumulator.fork() of an opaque accumulator returns a fresh accumulator determined by the history"])
@@ -148,7 +181,7 @@ def u_proceed(c):
                                           axioms=lambda it_, env, i: PLOG.axioms(i) + NS.axioms(i))}
     pairs = SymSeq("handler_pairs", n, lambda i: _mk_pair_sym(it, i))
     hc = mk_obj(it, O, "HandlerCollection", handler_pairs=pairs)
-    fn = SymObj("fn", Val.ref(z3.IntVal(c.new_id())))
+    fn = SymObj("fn", Val.ref(z3.IntVal(c.new_id())), attrs=dict(_FN_NAMES))
     st, res = run(it, it.getattr(hc, "proceed"), [fn])
     c.prove("no-raise", st == "ok")
     if st != "ok":
@@ -167,7 +200,7 @@ def u_proceed(c):
                                                                           it.to_val(v) == Val.ref(p_cm(i)) if v is not False else True), kind="auxiliary")
 
 
-@unit("proceed-bounded", ["C03", "C07", "C04", "C09"], [PROCEED], mode="bounded", bound="2 pending pairs (own accumulators, or siblings sharing one), <=1 child each, all flag combinations",
+@unit("proceed-bounded", ["C03", "C07", "C04", "C09", "C02", "C12", "C06", "C13", "C05"], [PROCEED], mode="bounded", bound="2 pending pairs (own accumulators, or siblings sharing one), <=1 child each, all flag combinations",
       fallback_for="proceed", max_paths=20000, replay=_replay_file("c03_proceed.py"))
 def u_proceed_b(c):
     """Bounded stand-in for 'proceed' with concrete flags (no solver involved): compared against the same meaning computed in Python."""
@@ -203,7 +236,9 @@ def u_proceed_b(c):
 
         fk = SummaryFn("fork", fork)
         fk.is_method = True
-        acc = SymObj(f"acc{i}", Val.ref(z3.IntVal(c.new_id())), attrs={"template": m["tmpl"], "fork": fk})
+        kind = {}
+        acc = SymObj(f"acc{i}", Val.ref(z3.IntVal(c.new_id())), attrs={"template": m["tmpl"], "fork": fk, "__isinstance__": _acc_isinstance(
+            lambda it_, kind=kind: kind.setdefault("immediate", bool(it_.ctx.choose(2, "accumulator-is-immediate"))))})
         if i == 1 and c.choose(2, "siblings-share-the-accumulator"):
             # f(g(x), h(y)): the sub-selectors of one parent are pending with the SAME accumulator; entering one of them must
             # leave the other pending (it stays current for the whole frame, e.g. while a generator is suspended)
@@ -213,7 +248,7 @@ def u_proceed_b(c):
         pairs.append((sel, acc))
         meta.append((m, sel, acc, kids))
     hc = mk_obj(it, O, "HandlerCollection", handler_pairs=list(pairs))
-    fn = SymObj("fn", Val.ref(z3.IntVal(c.new_id())))
+    fn = SymObj("fn", Val.ref(z3.IntVal(c.new_id())), attrs=dict(_FN_NAMES))
     st, res = run(it, it.getattr(hc, "proceed"), [fn])
     c.prove("no-raise", st == "ok")
     if st != "ok":
@@ -472,7 +507,7 @@ def u_overlay_enter_exit(c):
     c.prove("exit/LIFO-restores-previous", var.value is prev)
 
 
-@unit("BaseOverlay.exit-nonlifo", ["C05", "C09", "C02", "C17"], [O + ":BaseOverlay.__enter__", O + ":BaseOverlay.__exit__", O + ":HandlerCollection.plus"], mode="bounded",
+@unit("BaseOverlay.exit-nonlifo", ["C05", "C09", "C02", "C17", "C07", "C03", "C04", "C14"], [O + ":BaseOverlay.__enter__", O + ":BaseOverlay.__exit__", O + ":HandlerCollection.plus"], mode="bounded",
       bound="overlay with 1-2 handlers, 0-1 pairs installed before it, 1-2 pairs installed after it (all orders of exit); the later / earlier "
             "handlers may carry the very same (interned) selector object as an own handler")
 def u_overlay_exit_nonlifo(c):
